@@ -5,6 +5,10 @@
 #include <unistd.h>
 
 #include "runner.h"
+#ifdef SIM_COV
+#include "vsched.h"
+#include "trap.h"
+#endif
 
 static const char *argVal(int argc, char **argv, const char *name,
                           const char *def) {
@@ -114,6 +118,26 @@ static int cmdReplay(int argc, char **argv) {
 }
 
 int main(int argc, char **argv) {
+#ifdef SIM_COV
+    if (argc == 2 && !strcmp(argv[1], "layout")) {
+        // static description of the instrumented build, for the evidence
+        symLoad(argv[0]);
+        trapInit(argv[0]);
+        JP j = JVal::obj();
+        j->set("guards", (int64_t)guardCount());
+        j->set("functions_with_guards", (int64_t)guardFunctionsTotal());
+        j->set("protected_static_bytes", (int64_t)trapProtectedBytes());
+        JP a = JVal::arr();
+        for (auto &s : trapProtectedSymbols()) a->push(JVal::str(s));
+        j->set("protected_static_symbols", a);
+        extern std::vector<std::string> guardFunctionNames();
+        JP g = JVal::arr();
+        for (auto &s : guardFunctionNames()) g->push(JVal::str(s));
+        j->set("guard_functions", g);
+        puts(j->dump().c_str());
+        return 0;
+    }
+#endif
     if (argc < 3) {
         fprintf(stderr,
                 "usage: simh3 run <C16|C17|C18> [--seed S --runs N --workers W "
@@ -125,6 +149,9 @@ int main(int argc, char **argv) {
     containInstall();
     symLoad(argv[0]);
     genInitWorld();
+#ifdef SIM_COV
+    trapInit(argv[0]);
+#endif
     std::string cmd = argv[1];
     if (cmd == "run") return cmdRun(argc, argv);
     if (cmd == "replay") return cmdReplay(argc, argv);
